@@ -231,3 +231,5 @@ pub open spec fn pk_mel_erg() -> PoolKey { PoolKey { left: Denom::Erg, right: De
 pub open spec fn pk_erg_sym() -> PoolKey { PoolKey { left: Denom::Erg, right: Denom::Sym } }
 pub assume_specification<'a, T: Copy> [std::option::Option::<&'a T>::copied] (o: std::option::Option<&'a T>) -> (r: std::option::Option<T>)
     ensures r == (match o { Some(x) => Some(*x), None => None::<T> });
+
+pub assume_specification<T> [core::slice::from_ref::<T>] (s: &T) -> (r: &[T]) ensures r@ == seq![*s];
